@@ -49,6 +49,21 @@ var handwritten = []struct{ name, body string }{
   outp[0] = u32(v);
   outp[1] = u;
 }`},
+	{"switch-group-call", `fn bump(x: u32) -> u32 { return x * 3u + 1u; }
+fn note(i: u32) { outp[3] = outp[3] + i; }
+@compute @workgroup_size(1) fn main() {
+  var v: u32 = 2u;
+  switch inp.a % 6u {
+    case 0u, 1u: { v = bump(inp.b); }
+    case 2u, 3u, default: { note(inp.c); v = v + 1u; }
+    case 4u: { v = bump(v) + bump(inp.d); }
+  }
+  switch inp.b % 4u {
+    case 3u, 1u: { note(v); }
+    default: { }
+  }
+  outp[0] = v;
+}`},
 	{"struct-local", `struct P { x: u32, y: vec2<u32>, z: u32 }
 @compute @workgroup_size(1) fn main() {
   var p: P;
